@@ -376,7 +376,10 @@ def run(ctx, chk, tier="quick"):
     )
     chk.assumptions = ["entity roots are the tables storm, zeta_interval, discrete_zeta, grid_time (from the property's state description)",
                        "when max/step is an integer the top level is never crossed under the half-open rule (documented numeric edge, not decided)"]
-    from ..sqlrules import conflict_clauses, lossy_functions
+    from ..sqlrules import conflict_clauses, lossy_functions, parents_not_deleted
+    parents_not_deleted(ctx, chk, "C13.O2", ("classify", "zeta_grid", "set_curvature", "rise", "recession", "load"),
+                        ("rising_interval", "rising_interval_zeta", "recession_interval", "recession_interval_zeta"), "curve-parents",
+                        "a master-curve row whose interval (or storm, or level) was removed by a later step no longer traces back to a classified interval: the stored curve describes intervals that are not in the dataset")
     conflict_clauses(ctx, chk, "C13.O2", ("rise", "recession", "zeta_grid"), "curve-writes",
                      "rows that collide with an earlier assembly are dropped or overwritten silently: master-curve rows no longer trace to the intervals of this run")
     lossy_functions(ctx, chk, "C13.O5", ("rise", "recession", "zeta_grid"), "curve-queries",
